@@ -49,7 +49,8 @@ RULE = (
     "applied to literals, which the optimizer evaluates so that their result text lands in the source: urlize with rel / "
     "nofollow / target / extra_schemes on texts with URLs, xmlattr / tojson / dictsort / groupby / unique / items / string / "
     "list / sort / pprint ... on literal dicts and lists; `name in / not in` a literal list or tuple of 2-6 distinct strings in "
-    "if tests, outputs, loop filters, assignments and conditional expressions); "
+    "if tests, outputs, loop filters, assignments and conditional expressions; block / macro / import-alias names drawn "
+    "from the NFKC-stable Unicode, keyword, generated-code-like and dunder identifier pools); "
     "G-expr expression trees in output / if / set positions; and srcgen grammar sources when that generator exists -- "
     "each compiled twice in 7 fresh processes (PYTHONHASHSEED 0,1,2,3,4,5,12345) under a drawn environment "
     "(extensions i18n/do/loopcontrols, sync/async, autoescape, old/new style gettext). Non-trivial = the template "
@@ -305,6 +306,10 @@ def classify(case):
         used = {x.name for x in n.find_all(nodes.Name)}
         if used & {"varargs", "kwargs", "caller"}:
             labels.add("macro_special_params")
+    if any(not b.name.isascii() for b in ast.find_all(nodes.Block)):
+        labels.add("non_ascii_block_name")
+    if any(not m.name.isascii() for m in ast.find_all(nodes.Macro)) or any(not i.target.isascii() for i in ast.find_all(nodes.Import)):
+        labels.add("non_ascii_macro_or_alias")
     if any(b.scoped for b in ast.find_all(nodes.Block)):
         labels.add("scoped_block")
     for n in ast.find_all(nodes.If):
@@ -532,6 +537,16 @@ class _Dense:
     def pick(self, seq):
         return seq[self.i(0, len(seq) - 1)]
 
+    def ident(self, plain):
+        """A name for a block / macro / import alias: the plain ASCII one or an identifier of the alpha-renaming pools
+        of vt/gen/stmt.py (NFKC-stable Unicode, Python keywords, generated-code look-alikes, dunders)."""
+        k = self.i(0, 5)
+        if k <= 1:
+            return plain
+        if k <= 3:
+            return self.pick(G.IDENT_CLASSES["unicode"])
+        return self.pick(G.ALL_IDENTS)
+
     def names(self, k):
         idx = self.draw(st.lists(st.integers(0, len(DENSE_POOL) - 1), min_size=k, max_size=k, unique=True))
         return [DENSE_POOL[j] for j in idx]
@@ -591,15 +606,15 @@ class _Dense:
         if k == "include":
             return "{%% include %s%s %%}" % (self.pick(("'lib'", "['a', 'lib']", self.pick(ns))), self.pick(("", " with context", " ignore missing")))
         if k == "import_ctx":
-            return "{% import 'lib' as lib_ with context %}"
+            return "{%% import 'lib' as %s with context %%}" % self.ident("lib_")
         if k == "from_ctx":
             return "{% from 'lib' import w0, w1 as w9 with context %}"
         if k == "scoped_block":
-            return "{%% block blk%d scoped %%}%s{%% endblock %%}" % (self.i(0, 99), "".join("{{ %s }}" % n for n in ns[:3]))
+            return "{%% block %s scoped %%}%s{%% endblock %%}" % (self.ident("blk%d" % self.i(0, 99)), "".join("{{ %s }}" % n for n in ns[:3]))
         if k == "callblock":
             return "{%% call(%s) %s() %%}%s{%% endcall %%}" % (self.pick(ns), self.pick(ns), "".join("{{ %s }}" % n for n in ns[:3]))
         if k == "macro_closure":
-            return "{%% macro mc() %%}%s{%% include 'lib' %%}{%% endmacro %%}" % "".join("{{ %s }}" % n for n in ns[:4])
+            return "{%% macro %s() %%}%s{%% include 'lib' %%}{%% endmacro %%}" % (self.ident("mc"), "".join("{{ %s }}" % n for n in ns[:4]))
         return "".join("{{ %s }}" % n for n in ns)
 
     def frame(self, ns):
@@ -623,9 +638,10 @@ class _Dense:
             return "{%% for %s in seq %%}%s{%% else %%}%s{%% endfor %%}" % (self.pick(DENSE_POOL), inner, self.dump(ns))
         if k == "macro":
             ps = self.names(self.i(0, 4))
-            return "{%% macro mk(%s) %%}%s{%% endmacro %%}{{ mk() }}" % (", ".join(ps), inner)
+            mk = self.ident("mk")
+            return "{%% macro %s(%s) %%}%s{%% endmacro %%}{{ %s() }}" % (mk, ", ".join(ps), inner, mk)
         if k == "block":
-            return "{%% block outer%s %%}%s{%% endblock %%}" % (self.pick(("", " scoped")), inner)
+            return "{%% block %s%s %%}%s{%% endblock %%}" % (self.ident("outer"), self.pick(("", " scoped")), inner)
         if k == "with":
             ws = self.names(self.i(1, 4))
             return "{%% with %s %%}%s{%% endwith %%}" % (", ".join("%s = %s" % (w, self.value(ns)) for w in ws), inner)
@@ -634,7 +650,7 @@ class _Dense:
         if k == "setblock":
             return "{%% set captured %%}%s{%% endset %%}" % inner
         if k == "callblock":
-            return "{%% call mk2() %%}%s{%% endcall %%}" % inner
+            return "{%% call %s() %%}%s{%% endcall %%}" % (self.ident("mk2"), inner)
         return "{%% filter upper %%}%s{%% endfilter %%}" % inner
 
     def chains(self, ns):
@@ -903,7 +919,7 @@ def run_shard(spec, ctx):
 FLOORS = {
     "stores_3plus_in_frame": 0.15, "stores_6plus_in_frame": 0.02, "filters_tests_3plus": 0.08, "trans_free_3plus": 0.02,
     "tuple_unpacking": 0.08, "imports": 0.08, "macro_special_params": 0.05, "scoped_block": 0.03, "branch_stores_2plus": 0.03,
-    "filter_on_literal": 0.05, "urlize_rel_on_literal": 0.005, "in_literal_strings": 0.02, "env_async": 0.08, "env_i18n_newstyle": 0.05, "env_i18n_oldstyle": 0.05, "compiles": 0.7,
+    "filter_on_literal": 0.05, "urlize_rel_on_literal": 0.005, "in_literal_strings": 0.02, "non_ascii_block_name": 0.01, "non_ascii_macro_or_alias": 0.01, "env_async": 0.08, "env_i18n_newstyle": 0.05, "env_i18n_oldstyle": 0.05, "compiles": 0.7,
 }
 
 
